@@ -5,7 +5,7 @@
 use crate::ctx::Ctx;
 use crate::journal;
 use crate::report::{hex, show, unhex, Frag};
-use crate::subgen::{fib_word, thue_morse};
+use crate::subgen::{self, fib_word, thue_morse, NeedleSpec, Piece};
 use memchr::memmem::{self, Finder, FinderRev};
 use proptest::prelude::*;
 use serde_json::{json, Value};
@@ -163,7 +163,7 @@ fn step_viol(ctx: &Ctx, what: &str, family: u8, op: u8, n: usize, m: usize, seed
     let config = ctx.config();
     json!({
         "property": ctx.prop, "kind": "steps", "config": config, "level": ctx.level, "impl": "memmem", "op": OPS[op as usize],
-        "family": family, "family_name": FAMILIES[family as usize], "n": n, "m": m, "family_seed": seed,
+        "family": family, "family_name": FAMILIES.get(family as usize).copied().unwrap_or("generated family (needle spec + haystack tile, see detail)"), "n": n, "m": m, "family_seed": seed,
         "needles": show(needle), "haystack_shown": show(hay), "haystack_len": n + m,
         "needle": if needle.len() <= 64 { hex(needle) } else { String::new() },
         "detail": detail, "what": what, "expected": format!("steps <= {}*(n+m)+{}, steps(4n,4m) <= {}*steps(n,m), steps(16n,16m) <= {}*steps(n,m)", A, B, RATIO, RATIO16), "observed": what,
@@ -382,6 +382,19 @@ pub fn replay(ctx: &Ctx, v: &Value) -> Option<Value> {
     let family = v["family"].as_u64()? as u8;
     let opn = v["op"].as_str()?;
     let op = OPS.iter().position(|o| *o == opn)? as u8;
+    if family == 255 {
+        let g = &v["detail"]["gen"];
+        let spec = NeedleSpec {
+            kind: g["kind"].as_u64()? as u8,
+            len: g["len"].as_u64()? as usize,
+            a: g["a"].as_u64()? as u8,
+            b: g["b"].as_u64()? as u8,
+            ulen: g["ulen"].as_u64()? as usize,
+            bits: g["bits"].as_str()?.parse().ok()?,
+        };
+        let pieces: Vec<Piece> = g["pieces"].as_array()?.iter().filter_map(|x| parse_piece(x.as_str()?)).collect();
+        return judge_generated(ctx, &spec, &pieces, g["base_n"].as_u64()? as usize, op);
+    }
     let n = v["n"].as_u64()? as usize;
     let m = v["m"].as_u64()? as usize;
     let seed = v["family_seed"].as_u64().unwrap_or(0);
@@ -389,4 +402,187 @@ pub fn replay(ctx: &Ctx, v: &Value) -> Option<Value> {
     let _ = nd;
     let mut mx = Maxes::new();
     judge(ctx, family, op, n, m, seed, n <= 65536, &mut mx)
+}
+
+
+// ---------------------------------------------------------------------------
+// generated families: a structured needle and a haystack tile, both scaled by 1, 4 and 16
+
+/// A generated family violates the bound when, at some scale k in {4, 16, 64}, the cost per byte of
+/// (n+m) is at least CAP and at least GROW times the cost per byte at scale 1. On the unchanged tree the
+/// cost per byte saturates below 6 steps whatever the input (a change of regime - adaptive prefilter
+/// going inert, vector searcher vs Two-Way - moves it between ~0.05 and ~5); a term in n*m keeps growing.
+pub const CAP: f64 = 12.0;
+pub const GROW: f64 = 3.0;
+pub const GROW_MIN_STEPS: u64 = 60_000;
+
+fn scaled(spec: &NeedleSpec, pieces: &[Piece], base_n: usize, k: usize) -> (Vec<u8>, Vec<u8>) {
+    let mut sp = spec.clone();
+    sp.len = spec.len * k;
+    let needle = subgen::build_needle(&sp);
+    // pieces with explicit lengths scale with k as well
+    let ps: Vec<Piece> = pieces
+        .iter()
+        .map(|p| match p {
+            Piece::Foreign(b, n) => Piece::Foreign(*b, (*n as usize * k).min(60000) as u16),
+            Piece::NeedleByteRun(f, n) => Piece::NeedleByteRun(*f, (*n as usize * k).min(60000) as u16),
+            Piece::Noise(n, s) => Piece::Noise((*n as usize * k).min(60000) as u16, *s),
+            Piece::LongQuiet(n) => Piece::LongQuiet((*n as usize * k).min(60000) as u16),
+            other => other.clone(),
+        })
+        .collect();
+    let tile = subgen::build_haystack(&needle, &ps, 1 << 22);
+    let total = base_n * k;
+    let mut hay = Vec::with_capacity(total + tile.len());
+    if tile.is_empty() {
+        hay.resize(total, b'.');
+    } else {
+        while hay.len() < total {
+            hay.extend_from_slice(&tile);
+        }
+        hay.truncate(total);
+    }
+    (needle, hay)
+}
+
+fn gen_json(spec: &NeedleSpec, pieces: &[Piece], base_n: usize) -> Value {
+    json!({"kind": spec.kind, "len": spec.len, "a": spec.a, "b": spec.b, "ulen": spec.ulen, "bits": spec.bits.to_string(), "base_n": base_n,
+           "pieces": pieces.iter().map(|p| format!("{:?}", p)).collect::<Vec<_>>()})
+}
+
+fn parse_piece(s: &str) -> Option<Piece> {
+    let (name, args) = match s.find('(') {
+        Some(i) => (&s[..i], s[i + 1..s.len() - 1].split(',').filter_map(|x| x.trim().parse::<u64>().ok()).collect::<Vec<u64>>()),
+        None => (s, Vec::new()),
+    };
+    let a = |i: usize| args.get(i).copied().unwrap_or(0);
+    Some(match name {
+        "Needle" => Piece::Needle,
+        "Prefix" => Piece::Prefix(a(0) as u16),
+        "Suffix" => Piece::Suffix(a(0) as u16),
+        "Periods" => Piece::Periods(a(0) as u8),
+        "NearMiss" => Piece::NearMiss(a(0) as u16, a(1) as u8),
+        "HashEqual" => Piece::HashEqual(a(0) as u16),
+        "HashBlind" => Piece::HashBlind(a(0) as u16),
+        "RareRun" => Piece::RareRun(a(0) as u8),
+        "Foreign" => Piece::Foreign(a(0) as u8, a(1) as u16),
+        "Noise" => Piece::Noise(a(0) as u16, a(1)),
+        "FalseCandidates" => Piece::FalseCandidates(a(0) as u8),
+        "LongQuiet" => Piece::LongQuiet(a(0) as u16),
+        "Rotation" => Piece::Rotation(a(0) as u16),
+        "NeedleByteRun" => Piece::NeedleByteRun(a(0) as u16, a(1) as u16),
+        "SuffixPeriods" => Piece::SuffixPeriods(a(0) as u8),
+        _ => return None,
+    })
+}
+
+/// Re-judge one generated family (replay).
+fn judge_generated(ctx: &Ctx, spec: &NeedleSpec, pieces: &[Piece], base_n: usize, op: u8) -> Option<Value> {
+    let scales: Vec<usize> = if base_n <= 4096 && spec.len <= 128 { vec![1, 4, 16, 64] } else { vec![1, 4, 16] };
+    let mut c: Vec<f64> = Vec::new();
+    for k in scales.iter() {
+        let (needle, hay) = scaled(spec, pieces, base_n, *k);
+        let (steps, _) = measure(op, &needle, &hay);
+        let nm = (needle.len() + hay.len()) as u64;
+        let ck = steps as f64 / nm as f64;
+        c.push(ck);
+        if steps > A * nm + B {
+            return Some(step_viol(ctx, &format!("{} steps for n+m = {} ({:.1} per byte) exceeds {}*(n+m)+{}", steps, nm, ck, A, B), 255, op, hay.len(), needle.len(), 0, &needle, &hay, json!({"gen": gen_json(spec, pieces, base_n)})));
+        }
+        if *k > 1 && steps >= GROW_MIN_STEPS && ck >= CAP && ck >= GROW * c[0] {
+            return Some(step_viol(ctx, &format!("cost per byte grows with the input: {:?} steps per byte at scales {:?}", c, &scales[..c.len()]), 255, op, hay.len(), needle.len(), 0, &needle, &hay, json!({"gen": gen_json(spec, pieces, base_n)})));
+        }
+    }
+    None
+}
+
+pub fn steps_generic(ctx: &Ctx) -> Frag {
+    let mut frag = ctx.frag("steps-generated");
+    if !mvcore::cfgs::cfg_verif() {
+        return frag;
+    }
+    let cases = ctx.n(4_000, 60_000) as u32;
+    struct St {
+        frag: Frag,
+        failed: Option<Value>,
+        max_min_ratio: f64,
+        at: String,
+        max_per_byte: f64,
+    }
+    let st = RefCell::new(St { frag, failed: None, max_min_ratio: 0.0, at: String::new(), max_per_byte: 0.0 });
+    let strat = (
+        subgen::needle_spec(),
+        65usize..=256,
+        prop::collection::vec(subgen::piece(), 1..=5),
+        prop::sample::select(vec![4096usize, 8192, 16384]),
+        2u8..4, // complete traversals only: find_iter / rfind_iter
+    );
+    let mut runner = crate::ctx::runner(ctx.stream_seed("steps-generated"), cases);
+    let res = runner.run(&strat, |(mut spec, len, pieces, base_n, op)| {
+        let mut s = st.borrow_mut();
+        let s = &mut *s;
+        spec.len = len;
+        journal::set_ctx(&format!("{{\"stage\":\"steps-generated\",\"kind\":{},\"len\":{},\"base_n\":{}}}", spec.kind, len, base_n));
+        let scales: Vec<usize> = if base_n <= 4096 && len <= 128 { vec![1, 4, 16, 64] } else { vec![1, 4, 16] };
+        let mut c: Vec<f64> = Vec::new();
+        let mut stp: Vec<u64> = Vec::new();
+        let mut bad: Option<Value> = None;
+        for k in scales.iter() {
+            let (needle, hay) = scaled(&spec, &pieces, base_n, *k);
+            let (steps, _) = measure(op, &needle, &hay);
+            let nm = (needle.len() + hay.len()) as u64;
+            stp.push(steps);
+            let ck = steps as f64 / nm as f64;
+            c.push(ck);
+            if ck > s.max_per_byte {
+                s.max_per_byte = ck;
+            }
+            if steps > A * nm + B && bad.is_none() {
+                bad = Some(step_viol(ctx, &format!("{} steps for n+m = {} ({:.1} per byte) exceeds {}*(n+m)+{}", steps, nm, ck, A, B), 255, op, hay.len(), needle.len(), 0, &needle, &hay,
+                    json!({"steps": steps, "gen": gen_json(&spec, &pieces, base_n), "scale": k})));
+            }
+            if *k > 1 && steps >= GROW_MIN_STEPS && ck >= CAP && ck >= GROW * c[0] && bad.is_none() {
+                bad = Some(step_viol(ctx, &format!("cost per byte grows with the input: {:?} steps per byte at scales {:?} of (n = {}, m = {}) (bounded cost saturates below {})", c.iter().map(|x| (x * 100.0).round() / 100.0).collect::<Vec<_>>(), &scales[..c.len()], base_n, len, CAP),
+                    255, op, hay.len(), needle.len(), 0, &needle, &hay, json!({"gen": gen_json(&spec, &pieces, base_n), "steps": stp.clone(), "scale": k})));
+            }
+        }
+        let last = c.len() - 1;
+        if stp[last] >= GROW_MIN_STEPS {
+            let g = if c[0] > 0.0 { c[last] / c[0] } else { 0.0 };
+            if c[last] > s.max_min_ratio {
+                s.max_min_ratio = c[last];
+                s.at = format!("needle kind {} len {} base_n {} op {} pieces {:?}: per-byte cost {:?} (x{:.1})", subgen::NEEDLE_KINDS[spec.kind as usize], len, base_n, OPS[op as usize], pieces, c, g);
+            }
+        }
+        if s.failed.is_none() {
+            s.frag.evaluations += c.len() as u64;
+            s.frag.class(&format!("needle kind: {}", subgen::NEEDLE_KINDS[spec.kind as usize]));
+            if stp[last] >= GROW_MIN_STEPS {
+                s.frag.class("growth evaluated (>= 60000 steps at the largest scale)");
+                s.frag.nontrivial_hashes.insert(mvcore::oracle::fnv(&[format!("{:?}{:?}{}{}", spec, pieces, base_n, op).as_bytes()]));
+            }
+            if s.frag.want_sample() && stp[last] >= GROW_MIN_STEPS {
+                s.frag.sample(json!({"stage":"steps-generated","needle_kind":subgen::NEEDLE_KINDS[spec.kind as usize],"needle_len_at_scale_1":len,"haystack_len_at_scale_1":base_n,"scales":scales.clone(),
+                    "tile":format!("{:?}", pieces),"op":OPS[op as usize],"steps_per_byte":c.clone()}));
+            }
+        }
+        if let Some(v) = bad {
+            s.failed = Some(v);
+            return Err(TestCaseError::fail("violation"));
+        }
+        Ok(())
+    });
+    let mut s = st.into_inner();
+    if let Err(e) = &res {
+        if let Some(v) = s.failed.take() {
+            s.frag.violation(v);
+        } else {
+            s.frag.notes.push(format!("proptest aborted without a recorded violation: {}", e.to_string().chars().take(500).collect::<String>()));
+        }
+    }
+    s.frag.require(&["growth evaluated (>= 60000 steps at the largest scale)"]);
+    s.frag.extra.insert("max_steps_per_byte_at_largest_scale".into(), json!(s.max_min_ratio));
+    s.frag.extra.insert("max_steps_per_byte".into(), json!(s.max_per_byte));
+    s.frag.notes.push(format!("generated families: largest cost per byte at the largest scale = {:.2} ({}); a violation needs >= {} per byte and >= {}x the cost at scale 1", s.max_min_ratio, s.at, CAP, GROW));
+    s.frag
 }
